@@ -87,6 +87,18 @@ class XyeEngine(Engine):
         return out
 
     def generate(self, rng, tier, i):
+        scn = self._gen_one(rng, tier)
+        if scn["kind"] == "roundtrip" and rng.random() < 0.35:
+            # the same target is written again with other data (and loaded again)
+            second = self._gen_one(rng, tier)
+            if second["kind"] == "roundtrip":
+                for k in ("sink", "fname", "faults", "fresh_process"):
+                    second[k] = scn[k]
+                second["faults"] = {"mode": "none"}
+                scn["second"] = second
+        return scn
+
+    def _gen_one(self, rng, tier):
         r = rng.random()
         if r < 0.12:
             n = 1
@@ -338,6 +350,12 @@ class XyeEngine(Engine):
             ctx.violate(v["clause"], v["msg"], **v["sig"])
 
     def execute(self, scn, ctx, scratch):
+        self._last_target = None
+        self._execute_main(scn, ctx, scratch)
+        if scn.get("second") and self._last_target is not None and not ctx.violations:
+            self._second_write(scn, ctx, self._last_target)
+
+    def _execute_main(self, scn, ctx, scratch):
         warnings.simplefilter("ignore")
         os.chdir(scratch)
         ctx.step(f"{scn['kind']}:{scn['sink']}:{scn['faults']['mode']}:n{min(scn['n'], 3)}:"
@@ -355,6 +373,7 @@ class XyeEngine(Engine):
             ctx.violate("save_raised", f"fault-free save_xye raised {exc}", kind="save_raised",
                         exc=exc.name)
             return
+        self._last_target = target
         self._load_and_compare(scn, ctx, target, "fault-free")
         writes = target.sim_writes if scn["sink"] == "mem" else None
         mode = scn["faults"]["mode"]
@@ -401,6 +420,22 @@ class XyeEngine(Engine):
                             kind="retry_failed")
             else:
                 self._load_and_compare(scn, ctx, self._target(scn, ctx), "retry")
+
+    def _second_write(self, scn, ctx, target):
+        """Same target, other data: what is loaded afterwards must be the new table."""
+        s2 = scn["second"]
+        if scn["sink"] == "mem":
+            target.seek(0)
+            target.truncate(0)
+        else:
+            target = self._target(s2, ctx)
+        exc = self._save(s2, ctx, target, label="save_second_dataset_same_target")
+        ctx.probe("target_rewritten_with_other_data")
+        if exc is not None:
+            ctx.violate("save_raised", f"second save_xye to the same target raised {exc}", kind="save_raised",
+                        exc=exc.name)
+            return
+        self._load_and_compare(s2, ctx, target, "second dataset, same target")
 
     def _write_fault(self, scn, ctx, k, partial, retry):
         sink = seams.SimStringIO(ctx=ctx, fail_at=k, partial=partial)
@@ -471,6 +506,17 @@ class XyeEngine(Engine):
             c = copy.deepcopy(s)
             c["faults"] = {"mode": "none"}
             yield c
+        if s.get("second"):
+            c = copy.deepcopy(s)
+            del c["second"]
+            yield c
+            sec = s["second"]
+            for cand in self.shrink(sec):
+                c = copy.deepcopy(s)
+                for k in ("sink", "fname"):
+                    cand[k] = s[k]
+                c["second"] = cand
+                yield c
         if s.get("fresh_process"):
             c = copy.deepcopy(s)
             c["fresh_process"] = False
